@@ -141,13 +141,14 @@ structure PkgEntry where
   extra : List (Str × Str)
   deriving DecidableEq, Repr
 
-/-- `for part in parts { let mut kv = part.split('='); k = kv.next()?; v = kv.next()?; insert }` -/
+/-- `for part in parts { let (k, v) = part.split_once('=').ok_or("Missing value")?; insert(k, v) }`
+    (only the first `=` separates key and value) -/
 def parseExtras : List Str → List (Str × Str) → Option (List (Str × Str))
   | [], m => some m
   | p :: ps, m =>
-    match splitOn '=' p with
-    | k :: v :: _ => parseExtras ps (mapInsert k v m)
-    | _ => none
+    match splitOnFirst ['='] p with
+    | some kv => parseExtras ps (mapInsert kv.1 kv.2 m)
+    | none => none
 
 def PkgEntry.parse (s : Str) : Option PkgEntry :=
   match splitWhitespace s with
@@ -162,13 +163,19 @@ def PkgEntry.parse (s : Str) : Option PkgEntry :=
 
 def extraPieces (m : List (Str × Str)) : List Str := m.map fun p => ' ' :: (p.1 ++ '=' :: p.2)
 
-/-- the part printed before the extras; the extras follow in the map's iteration order, which the
-    Rust code leaves to `HashMap` (unspecified, differs from run to run) -/
+/-- the part printed before the extras -/
 def PkgEntry.printBase (e : PkgEntry) : Str :=
   e.package ++ ' ' :: (e.ptype ++ ' ' :: (e.section_ ++ ' ' :: priorityText e.priority))
 
-/-- printing with the extras in key order (one of the orders the real code may produce) -/
-def PkgEntry.print (e : PkgEntry) : Str := e.printBase ++ (extraPieces e.extra).flatten
+/-- `Ord` of `(&String, &String)`: lexicographic on (key, value), each in code-point order -/
+def pairLe (a b : Str × Str) : Bool :=
+  strLt a.1 b.1 || (a.1 == b.1 && !strLt b.2 a.2)
+
+/-- `let mut extra = self.extra.iter().collect::<Vec<_>>(); extra.sort();` — the sort is modelled
+    by `List.mergeSort` (trusted: Rust's stable `sort` returns the sorted permutation) -/
+def sortedExtras (m : List (Str × Str)) : List (Str × Str) := m.mergeSort pairLe
+
+def PkgEntry.print (e : PkgEntry) : Str := e.printBase ++ (extraPieces (sortedExtras e.extra)).flatten
 
 /-! ## build profile -/
 
@@ -378,7 +385,11 @@ def Signature.print : Signature → Str
   | .keyBlock s => '\n' :: s
   | .keyPath p => p
 
+/-- multi-line text: a key block, minus the one leading newline that `Display` puts in front of it
+    (`text.strip_prefix('\n').unwrap_or(text)`); a single line is a path -/
 def Signature.parse (s : Str) : Signature :=
-  if s.contains '\n' then .keyBlock s else .keyPath s
+  if s.contains '\n' then
+    .keyBlock (match s with | '\n' :: r => r | _ => s)
+  else .keyPath s
 
 end Deb822Verif.Codec
